@@ -45,15 +45,15 @@ def PyVal.isUnspecified : PyVal → Bool
   | .unspecified => Bool.true
   | _ => Bool.false
 
-/-- `vectorize_with_mpmath.__init__`, AS WRITTEN:
+/-- `vectorize_with_mpmath.__init__`, as written (since /repo commit 724e786):
 ```
 flush_subnormals = kwargs.pop("flush_subnormals", UNSPECIFIED)
-self.flush_subnormals = flush_subnormals if flush_subnormals is UNSPECIFIED else default_flush_subnormals
+self.flush_subnormals = flush_subnormals if flush_subnormals is not UNSPECIFIED else default_flush_subnormals
 ```
 `kw = none` means the keyword is absent; `dflt` is the module global `default_flush_subnormals`. -/
 def initFlush (kw : Option PyVal) (dflt : PyVal) : PyVal :=
   let fs := kw.getD .unspecified
-  if fs.isUnspecified then fs else dflt
+  if fs.isUnspecified then dflt else fs
 
 /-- What `mpf2float` does with the stored attribute: `if flush_subnormals` (truthiness). -/
 def effectiveFlush (kw : Option PyVal) (dflt : PyVal) : Bool := (initFlush kw dflt).truthy
